@@ -85,7 +85,10 @@ class World:
 
     # ---- files
     def path(self, name, ext=".hy"):
-        return os.path.join(self.root, name + ext)
+        # a dotted name is a module inside a package: directories are created on demand
+        p = os.path.join(self.root, *name.split(".")) + ext
+        os.makedirs(os.path.dirname(p), exist_ok=True)
+        return p
 
     def write(self, name, text, ext=".hy", advance=2):
         self.clock += advance
@@ -129,11 +132,13 @@ class World:
 
     # ---- process boundary
     def restart(self):
+        tops = {x.split(".")[0] for x in self.names}
         for n in list(sys.modules):
-            if n in self.names or n.split(".")[0] in self.names:
+            if n in self.names or n.split(".")[0] in tops:
                 del sys.modules[n]
         importlib.invalidate_caches()
-        sys.path_importer_cache.pop(self.root, None)
+        for k in [k for k in sys.path_importer_cache if k == self.root or k.startswith(self.root + os.sep)]:
+            sys.path_importer_cache.pop(k, None)
 
     def import_(self, name):
         """Returns (module or exception, [names compiled from source during this import])."""
@@ -146,10 +151,12 @@ class World:
         except BaseException as e:
             res = e
         compiled = []
+        self.last_compiled_paths = []
         for line in err.getvalue().splitlines():
             if line.startswith("Compiling "):
                 p = line[len("Compiling "):].strip()
                 compiled.append(os.path.splitext(os.path.basename(p))[0])
+                self.last_compiled_paths.append(p)
         return res, compiled, out.getvalue(), err.getvalue()
 
     def close(self):
